@@ -28,10 +28,10 @@ func sizeMessageSet(mi *MessageInfo, p pointer, opts marshalOptions) (size int) 
 		size += messageset.SizeField(num)
 		if fullyLazyExtensions(opts) {
 			// Don't expand the extension, instead use the buffer to calculate size
-			if lb := x.lazyBuffer(); lb != nil {
+			if v := lazyMessageSetValue(x.lazyBuffer(), xi.tagsize); v != nil {
 				// We got hold of the buffer, so it's still lazy.
 				// Don't count the tag size in the extension buffer, it's already added.
-				size += protowire.SizeTag(messageset.FieldMessage) + len(lb) - xi.tagsize
+				size += protowire.SizeTag(messageset.FieldMessage) + len(v)
 				continue
 			}
 		}
@@ -90,6 +90,22 @@ func marshalMessageSet(mi *MessageInfo, b []byte, p pointer, opts marshalOptions
 	return b, nil
 }
 
+// lazyMessageSetValue returns the length-prefixed message value held in the
+// buffer of a lazy extension, without the extension's own tag, if that is all
+// the buffer holds. It returns nil if the extension is not lazy (anymore) or
+// occurred more than once: the buffer then holds several tagged records, which
+// must be merged rather than copied into a single item.
+func lazyMessageSetValue(lb []byte, tagsize int) []byte {
+	if len(lb) <= tagsize {
+		return nil
+	}
+	v := lb[tagsize:]
+	if _, n := protowire.ConsumeBytes(v); n != len(v) {
+		return nil
+	}
+	return v
+}
+
 func marshalMessageSetField(mi *MessageInfo, b []byte, x ExtensionField, opts marshalOptions) ([]byte, error) {
 	xi := getExtensionFieldInfo(x.Type())
 	num, _ := protowire.DecodeTag(xi.wiretag)
@@ -97,11 +113,11 @@ func marshalMessageSetField(mi *MessageInfo, b []byte, x ExtensionField, opts ma
 
 	if fullyLazyExtensions(opts) {
 		// Don't expand the extension if it's still in wire format, instead use the buffer content.
-		if lb := x.lazyBuffer(); lb != nil {
+		if v := lazyMessageSetValue(x.lazyBuffer(), xi.tagsize); v != nil {
 			// The tag inside the lazy buffer is a different tag (the extension
 			// number), but what we need here is the tag for FieldMessage:
 			b = protowire.AppendVarint(b, protowire.EncodeTag(messageset.FieldMessage, protowire.BytesType))
-			b = append(b, lb[xi.tagsize:]...)
+			b = append(b, v...)
 			b = messageset.AppendFieldEnd(b)
 			return b, nil
 		}
